@@ -14,6 +14,7 @@
      without duplicate keys ([amap]), so that two maps with the same content are equal.
    * Expression evaluation (expression.rs, function.rs) is the parameter [exprlib]. *)
 From Sophia.Common Require Export Prelude Term.
+From Coq Require Export Permutation.
 
 (* ---------- small boolean list utilities ---------- *)
 Fixpoint memb {A} (eqb : A -> A -> bool) (x : A) (l : list A) : bool :=
@@ -660,6 +661,35 @@ Fixpoint spec (D : dataset) (p : pattern) (g : option term) : list amap :=
   | Distinct inner => dedupb amap_eqb (spec D inner g)
   | Slice inner start len => slice start len (spec D inner g)  (* of ONE order of the list *)
   | Unsup _ => []
+  end.
+
+(* The same semantics as a relation, which also covers OFFSET / LIMIT below other operators:
+   [answers D p g rows] = "rows is an admissible answer for p": a multiset is any ordering of
+   it, and Slice cuts a window out of ANY admissible ordering of its operand (18.5: "Slice" is
+   defined on the sequence obtained by ToList, whose order is only constrained by ORDER BY,
+   which is property C14). *)
+Fixpoint answers (D : dataset) (p : pattern) (g : option term) (rows : list amap) : Prop :=
+  match p with
+  | Bgp ps => Permutation rows (spec_bgp (graph_of D g) ps)
+  | Filter e inner =>
+      exists l, answers D inner g l /\ Permutation rows (filter (filter_keep e) l)
+  | Union l r =>
+      exists l1 l2, answers D l g l1 /\ answers D r g l2 /\ Permutation rows (l1 ++ l2)
+  | Graph (NConst i) inner =>
+      if memb teq (Iri i) (graph_names_set D) then answers D inner (Some (Iri i)) rows
+      else rows = []
+  | Graph (NVar v) inner =>
+      exists f : term -> list amap,
+        (forall n, In n (graph_names_set D) -> answers D inner (Some n) (f n))
+        /\ Permutation rows (flat_map (fun n => filter_map (join_var_mu v n) (f n))
+                                      (graph_names_set D))
+  | Extend inner v e =>
+      exists l, answers D inner g l /\ Permutation rows (map (extend_mu v e) l)
+  | OrderBy inner _ => exists l, answers D inner g l /\ Permutation rows l
+  | Project inner vs => exists l, answers D inner g l /\ Permutation rows (map (restrict vs) l)
+  | Distinct inner => exists l, answers D inner g l /\ Permutation rows (dedupb amap_eqb l)
+  | Slice inner start len => exists l, answers D inner g l /\ rows = slice start len l
+  | Unsup _ => False
   end.
 
 (* syntactic classes used by the theorems *)
